@@ -181,20 +181,23 @@ func (g *Graph) FindCycle(seed string) []string {
 	type edge struct {
 		node   string
 		parent string
+		// root marks the initial queue element: the seed before any edge was followed.
+		// The empty string cannot play this role because it is a legal node name.
+		root bool
 	}
 	S := make([]edge, 0, len(g.outputs))
-	S = append(S, edge{seed, ""})
+	S = append(S, edge{seed, "", true})
 	visited := map[string]string{}
 	for len(S) > 0 {
 		e := S[0]
 		S = S[1:]
-		if parent, exists := visited[e.node]; !exists || parent == "" {
+		if _, exists := visited[e.node]; !exists {
 			visited[e.node] = e.parent
 			for child := range g.outputs[e.node] {
-				S = append(S, edge{child, e.node})
+				S = append(S, edge{child, e.node, false})
 			}
 		}
-		if e.node == seed && e.parent != "" {
+		if e.node == seed && !e.root {
 			result := []string{}
 			node := e.parent
 			for node != seed {
